@@ -57,7 +57,7 @@ def _tl(*names):
     return [("QuartzModel.Theorems.TransLoop", "TransLoop." + t) for t in names]
 TRANSLOOP_C15 = _tl("trans_loop_nothing_missing", "trans_calculateNextTick", "trans_arm", "trans_executeAndReschedule", "trans_iter_core", "trans_iter", "trans_iter_facts",
                     "facts_shape_eq", "trans_iter_exit", "trans_init", "trans_runLoop", "trans_runQ", "C15_backoff_step_trans", "C15_backoff_trans",
-                    "C15_deadline_not_postponed_trans", "C15_no_double_fire_trans")
+                    "C15_size_retry_kept_trans", "C15_deadline_not_postponed_trans", "C15_no_double_fire_trans")
 TRANSLOOP_C05 = _tl("trans_loop_nothing_missing", "trans_Reset", "trans_iter_interrupt_use", "trans_iter_exit")
 # executeWithRetries, the dispatch switch and the workers, translated by harness/cmd/gotolean-retry -> Generated/TransRetry.lean
 def _tr(*names):
@@ -127,8 +127,9 @@ THEOREMS = {
         "C15_iter_calls", "C15_no_double_fire", "C15_deadline_not_postponed", "C15_recovers",
         "C15_no_spin_on_spurious_empty", "C15_spurious_empty_spins_unrepaired", "C15_no_spin_on_empty_pop",
         "C15_empty_pop_spins_unrepaired", "C15_honest_empty_pop", "C15_empty_queue_keeps_polling"]] +
-           # the rate clause at full strength is FALSE for the loop's read-only calls Size()/Head() under interrupts: proved refutation (known finding F4)
-           [("QuartzModel.Theorems.C15F4", "Faults.C15_size_retry_full_fails")] +
+           # the rate clause at full strength for the loop's read-only calls Size()/Head() under interrupts (finding F4, repaired): PROVED for every well-formed
+           # shape and for the regenerated one; the refutation is kept as a negative control for the shape before the repair (`Faults.askFirst`)
+           [("QuartzModel.Theorems.C15F4", "Faults." + t) for t in ["C15_size_retry_kept_wf", "C15_size_retry_kept", "C15_size_retry_full_fails"]] +
            [("QuartzModel.Proofs.FaultsLemmas", "Faults.no_tick_before"), ("QuartzModel.Proofs.FaultsLemmas", "Faults.runQ_nodup"),
             ("QuartzModel.Proofs.FaultsLemmas", "Faults.iter_spurious"), ("QuartzModel.Proofs.FaultsLemmas", "Faults.backoff_after")],
     "C16": TRANSJOBS + [("QuartzModel.Theorems.MissingJobs", "Facts.missing_none_jobs")] + [("QuartzModel.Theorems.C16", "Jobs." + t) for t in [
